@@ -176,6 +176,28 @@ def _op_digest(op, memo):
     return tuple(out)
 
 
+def _listing(sched):
+    """Names and sizes of every file under the scratch root (plus the content of very small ones): files that
+    the code under test creates or removes directly (marker files, scratch copies) are part of the state even
+    when they never went through the tile-I/O wrappers, whose content digests are in sched.fs."""
+    root = sched.root
+    if not root:
+        return ()
+    out = []
+    for d, _dirs, files in os.walk(root):
+        for f in files:
+            p = os.path.join(d, f)
+            try:
+                n = os.path.getsize(p)
+                small = open(p, "rb").read() if n <= 64 else b""
+            except OSError:
+                continue
+            rel = os.path.relpath(p, root)
+            out.append((rel, n if rel not in sched.fs else -1, small if rel not in sched.fs else b""))
+    out.sort()
+    return tuple(out)
+
+
 def state_key(sched, repo, extra=None):
     """Canonical key of the current global state, plus the worker ranking used to
     compare enabled-action sets across symmetric states."""
@@ -219,6 +241,7 @@ def state_key(sched, repo, extra=None):
             mrepr = mrepr.replace("('phandle', '%s')" % p.name, "('phandle', '<%s>')" % rank[p.pid])
     main = (mrepr, main[1])
     shared = (
+        _listing(sched),
         tuple((q.name, q.maxsize, q.sem, tuple(q.pipe)) for q in sched.queues),
         tuple((e.name, e.flag) for e in sched.events),
         tuple(sorted(sched.fs.items())),
